@@ -282,22 +282,41 @@ def check(ctx):
                 rep.note(f"unconfirmed measuring rule {rel}:{name}: R-C13-wirecover not armed (armed only for instances confirmed by reading)")
                 rep.exempt("R-C13-wirecover", where, "unconfirmed instance: def/use only")
             continue
+        # locals that merely name a wire expression (`aux = work_wires[0]`, `control, target = wires[0], wires[1]`) are read through
+        from ..astutil import inline_single_defs, read_through
+
+        wire_defs = {k_: v_ for k_, v_ in inline_single_defs(f.node).items() if isinstance(v_, (ast.Subscript, ast.Name, ast.Attribute))}
+        for st_ in ast.walk(f.node):
+            if isinstance(st_, ast.Assign) and len(st_.targets) == 1 and isinstance(st_.targets[0], ast.Tuple) and isinstance(st_.value, ast.Tuple) \
+                    and len(st_.targets[0].elts) == len(st_.value.elts):
+                for t_, v_ in zip(st_.targets[0].elts, st_.value.elts):
+                    if isinstance(t_, ast.Name) and isinstance(v_, (ast.Subscript, ast.Name, ast.Attribute)):
+                        wire_defs.setdefault(t_.id, v_)
+
+        def keys_of(e):
+            return _wire_keys(read_through(e, wire_defs, keep=()))
         guarded = set()
         for inner, outer in fl.cond_calls:
             if outer is None:
                 continue
             for a in outer.args:
-                guarded |= _wire_keys(a)
+                guarded |= keys_of(a)
             for kw in outer.keywords:
                 if kw.arg == "wires":
-                    guarded |= _wire_keys(kw.value)
+                    guarded |= keys_of(kw.value)
+        # outcomes handed to another function of the package (an extracted corrections helper): the conditioned operators may be there
+        outcome_names = {d["name"] for d in fl.defs if d["name"]}
+        escapes = any(isinstance(c_, ast.Call) and not (isinstance(c_.func, ast.Attribute) and c_.func.attr == "cond") and any(
+            isinstance(x_, ast.Name) and x_.id in outcome_names for a_ in list(c_.args) + [k_.value for k_ in c_.keywords] for x_ in ast.walk(a_))
+            and _resolve_callee(sc, f.module, c_.func) is not None and getattr(_resolve_callee(sc, f.module, c_.func), "name", "") not in ("cond",)
+            for c_ in ast.walk(f.node))
         measured = {}
         for d in fl.defs:
             w = _measure_wires(d["call"], d["kind"])
             if w is None:
                 rep.unknown("R-C13-wirecover", where, f"wires of {norm(d['call'])[:50]} not found")
                 continue
-            for k in _wire_keys(w):
+            for k in keys_of(w):
                 measured.setdefault(k, d)
         if not measured:
             raise AnalysisError(f"{where}: no measured wire recognised (confirmed instance changed shape)")
@@ -305,6 +324,9 @@ def check(ctx):
             txt = k[0] + (f"[{k[1]}]" if k[1] is not None else "")
             if _covers(k, guarded):
                 rep.proved("R-C13-wirecover", f"{where} {txt}", "receives a cond-guarded operator")
+            elif escapes:
+                rep.unknown("R-C13-wirecover", f"{where} {txt}", "measurement outcomes are handed to another function of the package; the conditioned operators "
+                            "may be queued there")
             else:
                 rep.refuted("R-C13-wirecover", rel, name, f"{txt} measured by {norm(d['call'])[:60]}",
                             f"{name}: wire {txt} is measured ({norm(d['call'])[:60]}) but no qp.cond(...)-guarded operator acts on it: "
